@@ -340,6 +340,12 @@ fn classify(pid: i32, tid: i32, own: bool) -> Node {
                 mk(desc, Block::Poll(set))
             }
         }
+        202 if !own && threads_of(pid).len() == 1 && (a[1] & 128) != 0 && matches!(a[1] & 127, 0 | 9 | 6) && a[3] == 0 => {
+            // futex(FUTEX_WAIT | FUTEX_PRIVATE, no timeout) in a process that has a single thread: only another thread of
+            // the same process could ever wake it, and there is none (a forked child waiting for a lock that some other
+            // thread of its parent held at the moment of the fork)
+            mk("waits on a process-private lock that no thread of this single-threaded process can release".into(), Block::Forever)
+        }
         _ => mk(format!("syscall {}", nr), Block::Not(format!("syscall {} (not a pipe/wait dependency)", nr))),
     }
 }
@@ -375,7 +381,7 @@ impl Certificate {
                 Block::WaitPid(_) => "wait",
                 Block::WaitAny => "waitany",
                 Block::Poll(_) => "poll",
-                Block::Forever => "never-ending-child",
+                Block::Forever => "cannot-proceed-ever",
                 Block::Held => "program-that-runs-until-the-call-returns",
                 _ => "?",
             })
